@@ -253,10 +253,59 @@ def small_field_grid():
     return out
 
 
+# ---- scaling families: the same shape at size N and 2N; executed lines must not grow faster than ~linearly
+
+def _fam_riff(n):
+    chunks = [(b"imap", b"")] + [(b"ABCD", bytes([i % 251]) * (i % 7)) for i in range(n)]
+    data, *_ = c01.build_movie(">", b"", chunks, 1)
+    return "riff", data, {"order": ">"}
+def _fam_mmap(n):
+    chunks = [(b"imap", b"")] + [(b"ABCD", b"") for i in range(n)]
+    data, entries, offs, ch = c01.build_movie("<", b"", chunks, 1)
+    return "mmap", ch[1][1], {"order": "<"}
+def _fam_cas(n):
+    return "cas", b"".join(struct.pack(">i", i % 5) for i in range(n)), {}
+def _fam_key(n):
+    return "key", struct.pack(">iii", 12, 12, n + 1) + b"".join(struct.pack(">ii", 3 + i, 1 + i % 9) + b"CASt" for i in range(n + 1)), {"order": ">"}
+def _fam_locate(n):
+    return "locate", (b"XFIR" + bytes(8)) * n + b"XFIR\0\0\0\0" + b"39VM", {}
+def _fam_lscr_straight(n):
+    import lscr_common as lc
+    lnam = lc.build_lnam([b"test", b"x"])
+    return "lscr", lc.build_lscr([dict(name=0, args=[], locals=[1], code=b"\x41\x01\x52\x00" * n + b"\x01")]), {"lnam": lnam.hex()}
+def _fam_lscr_loops(n):
+    import lscr_common as lc
+    lnam = lc.build_lnam([b"test", b"x"])
+    loop = b"\x41\x01\x95\x00\x08\x41\x01\x52\x00\x54\x09"     # repeat while 1 / set x = 1 / end repeat
+    return "lscr", lc.build_lscr([dict(name=0, args=[], locals=[1], code=loop * n + b"\x01")]), {"lnam": lnam.hex()}
+def _fam_lscr_ifs(n):
+    import lscr_common as lc
+    lnam = lc.build_lnam([b"test", b"x"])
+    st = b"\x41\x01\x95\x00\x07\x41\x01\x52\x00"                  # if 1 then set x = 1 end if
+    return "lscr", lc.build_lscr([dict(name=0, args=[], locals=[1], code=st * n + b"\x01")]), {"lnam": lnam.hex()}
+
+FAMILIES_SCALING = dict(riff=(_fam_riff, 300), mmap=(_fam_mmap, 300), cas=(_fam_cas, 2000), key=(_fam_key, 500), locate=(_fam_locate, 500),
+                        lscr_straight=(_fam_lscr_straight, 250), lscr_loops=(_fam_lscr_loops, 120), lscr_ifs=(_fam_lscr_ifs, 150))
+SCALING_MAX_RATIO = 2.6      # doubling the input may at most (a bit more than) double the executed lines
+
+
+def scaling_cases():
+    out = []
+    for fam, (f, n) in FAMILIES_SCALING.items():
+        try:
+            name, d1, aux = f(n)
+            _, d2, _ = f(2 * n)
+        except Exception:
+            continue
+        spec = dict(decoder=name, aux=aux, hex=hx(d1), hex2=hx(d2), kind="scaling", family=fam, n=len(d1), n2=len(d2), sha=hashlib.sha1(d1).hexdigest()[:12])
+        out.append(Case(kind=f"{name}:scaling:{fam}", spec=spec, lines=[f"#c10 scaling {fam}"], expect=[None]))
+    return out
+
+
 def cases(rng, tier):
     per = dict(quick=90, thorough=1500, search=600)[tier]
     S = seeds()
-    out = []
+    out = scaling_cases()
     def mk(name, data, aux, kind):
         data = data[:65536]
         lines = [f"#c10 run {name}"]
@@ -373,6 +422,11 @@ def impl(case):
     sp = case["spec"]
     name, aux = sp["decoder"], sp["aux"]
     data = bytes.fromhex("" if sp["hex"] == "-" else sp["hex"])
+    if sp.get("kind") == "scaling":
+        m1 = measure(name, data, aux)
+        m2 = measure(name, bytes.fromhex(sp["hex2"]), aux)
+        return [canon(dict(outcome=m1["outcome"] if m1["outcome"] == m2["outcome"] else m1["outcome"] + "/" + m2["outcome"],
+                           lines=m1["lines"], lines2=m2["lines"], peak=m2["peak"], secs=m2["secs"]))]
     m = measure(name, data, aux)
     case_out = canon(m)
     if case["lines"][0].startswith("riff steps"):
@@ -402,6 +456,13 @@ def oracle(case, io):
             return f"container walk made {it} iterations on {n} bytes (each iteration must consume at least 8 bytes)"
         return None
     m = json.loads(io[0])
+    if sp.get("kind") == "scaling":
+        if m["outcome"] not in ("ok", "error"):
+            return f"scaling family {sp['family']}: outcome {m['outcome']}"
+        r = m["lines2"] / max(1, m["lines"])
+        if r > SCALING_MAX_RATIO:
+            return f"scaling family {sp['family']}: doubling the input ({sp['n']} -> {sp['n2']} bytes) multiplies executed lines by {r:.2f} ({m['lines']} -> {m['lines2']}): work is not bounded by a fixed multiple of the input length"
+        return None
     dec = declared(sp["decoder"], bytes.fromhex("" if sp["hex"] == "-" else sp["hex"]), sp["aux"])
     if m["outcome"] not in ("ok", "error"):
         return f"{sp['decoder']}: outcome {m['outcome']} on a {n}-byte input (lines={m['lines']}, peak={m['peak']})"
@@ -416,4 +477,17 @@ def nontrivial(case, io):
     return io[0] is not None and '"timeout"' not in io[0] and '"memory"' not in io[0]
 
 
-MATCHERS = {}
+def _m_f37(case, f, p):
+    """F37: the decompiler's jump reconstruction rescans/removes over the whole statement list for every jump: quadratic, not worse"""
+    sp = case["spec"]
+    if sp.get("kind") != "scaling" or sp.get("family") not in ("lscr_loops", "lscr_ifs"):
+        return False
+    try:
+        m = json.loads(f.got)[0] if f.got.startswith("[") else json.loads(f.got)
+        m = json.loads(m) if isinstance(m, str) else m
+    except Exception:
+        return False
+    return m.get("outcome") == "ok" and m["lines2"] / max(1, m["lines"]) <= 4.6
+
+
+MATCHERS = {"c10_decompiler_quadratic_in_jumps": _m_f37}
